@@ -211,6 +211,12 @@ def run_tissue(ck, case, reqs, pending):
                 f"ids {sorted(tabmap)[:6]}..., first mismatch among {[(int(cid), tabmap.get(int(cid)), float(cl.pressure)) for cid, cl in frame.cells.items() if tabmap.get(int(cid)) != float(cl.pressure)][:2]}", case)
     curv = [float(frame.big_edges[i].calculate_total_curvature(normalized=False)) for i in range(len(obs["earr"]))]
     kept_cols = [j for j in range(ncell) if j not in removed]
+    # cells that touch no internal interface carry no unknown (and are reported zero): decided here from the interfaces' own cells
+    touched = {int(c_) for i in internal for c_ in frame.big_edges[i].own_cells}
+    want_removed = [j for j, c_ in enumerate(cells) if int(c_) not in touched]
+    if sorted(removed) != want_removed:
+        ck.fail("pressures are zero for cells touching no internal interface (such cells carry no unknown of the system)",
+                f"cells without an internal interface at positions {want_removed[:8]}, left out of the system: {sorted(removed)[:8]}", case)
     # ---------------- S: rows against the geometry
     if L.shape != (len(internal), len(kept_cols)):
         ck.fail("one equation per internal interface, one unknown per cell that has one", f"shape {L.shape}", case)
